@@ -328,6 +328,66 @@ def _recorded_session(exe):
         shutil.rmtree(base, ignore_errors=True)
 
 
+def _split_frames(data):
+    import struct
+    out, i = [], 0
+    while i + 4 <= len(data):
+        n = struct.unpack(">I", data[i:i + 4])[0]
+        out.append(data[i:i + 4 + n])
+        i += 4 + n
+    return out, data[i:]
+
+
+def serve_session_check(R, oid, key):
+    """one request, one reply: the real `copia serve` is fed a REAL client's recorded session (Hello, List, Put + content, Bye) with the
+    Hello's version number varied over 0..23 (a well-framed, well-formed Hello whatever the number). The replies to the requests AFTER
+    the Hello must be byte-for-byte those of the unmodified session on an identical fresh tree - an extra or missing reply frame shifts
+    every later reply (seeded change c12-6)"""
+    import shutil, tempfile
+    from . import c04
+    for prof in ("dev", "release"):
+        exe = c04.build_copia(prof)
+        data = _recorded_session(exe)
+        # the first frame is the Hello; its CBOR body ends with the version number (a one-byte unsigned integer for 0..23)
+        import struct
+        n0 = struct.unpack(">I", data[6:10])[0]
+        end = 10 + n0
+        if data[end - 1] != 1:
+            raise Inconclusive("the recorded Hello frame does not end with the version number 1")
+
+        def session(bytes_):
+            base = tempfile.mkdtemp(prefix="copia-verif-ses-")
+            try:
+                root = os.path.join(base, "hub")
+                os.makedirs(root)
+                open(os.path.join(root, "a.txt"), "wb").write(b"hi")
+                p = subprocess.run([exe, "serve", root], input=bytes_, stdout=subprocess.PIPE, stderr=subprocess.PIPE, timeout=60)
+                frames, rest = _split_frames(p.stdout)
+                return p.returncode, frames, rest, os.path.exists(os.path.join(root, "planted.txt"))
+            finally:
+                shutil.rmtree(base, ignore_errors=True)
+        rc0, ref, rest0, planted0 = session(data)
+        if rc0 != 0 or rest0 or not planted0 or len(ref) < 3:
+            raise Inconclusive("the unmodified recorded session did not run cleanly (status %d, %d reply frames)" % (rc0, len(ref)))
+        for v in (0, 2, 3, 23):
+            mod = data[:end - 1] + bytes([v]) + data[end:]
+            rc, fr, rest, planted = session(mod)
+            why = None
+            if rc < 0 or rc >= 128:
+                why = "the server crashed (status %d)" % rc
+            elif len(fr) != len(ref) or rest:
+                why = "%d reply frames for the same %d requests (unmodified session: %d)" % (len(fr), len(ref), len(ref))
+            elif fr[1:] != ref[1:]:
+                why = "the replies to the requests after the Hello differ from those of the unmodified session"
+            elif not planted:
+                why = "the Put after the Hello did not commit"
+            if why:
+                c = {"fn": "serve_session", "hello_version": v, "input": list(mod), "observed": {prof: {"rc": rc, "reply_frames": len(fr)}}, "deviation": why}
+                return {"confirmed": True, "replay_path": R.save_replay(oid, c), "key": key,
+                        "detail": "`copia serve` fed a real client's session with Hello{version:%d} (%s): %s" % (v, prof, why)}
+    return {"confirmed": False, "detail": "`copia serve` answers a recorded client session frame for frame whatever the Hello's version number (0, 2, 3, 23; dev+release)"}
+
+
 def serve_prologue_check(R, oid, key):
     """the real `copia serve ROOT` on inputs that never get as far as a well-formed request: the served tree (the `.copia` control
     directory aside) must be byte-for-byte what it was - including files that look like someone's staging files"""
